@@ -3657,6 +3657,14 @@ class TLSConnection(TLSRecordLayer):
                         "Empty key_share extension"):
                     yield result
 
+            dc_ext = clientHello.getExtension(
+                ExtensionType.delegated_credential)
+            if dc_ext and not dc_ext.sigalgs:
+                for result in self._sendError(
+                        AlertDescription.decode_error,
+                        "Empty delegated_credential extension"):
+                    yield result
+
             if psk_modes:
                 if not psk_modes.modes:
                     for result in self._sendError(
